@@ -8,7 +8,7 @@ the same templates (sentinel after the constructs must reach the output; no pani
 import os, sys, collections, itertools, glob
 sys.path.insert(0, os.path.dirname(os.path.dirname(os.path.abspath(__file__))))
 from vlib import *
-import proggen, absinstr
+import proggen, absinstr, langenc
 
 SENT = "«END»"
 
@@ -51,6 +51,28 @@ def else_controls():
             yield "{% for o in l %}{% set z %}<" + core + ">{% endset %}{{ z }}{% endfor %}" + SENT
 
 
+def escape_state_family():
+    """nested autoescape blocks (also around the other scoped constructs and loop controls): after every
+    block the escape mode must be the one before it.  Returns (source, expected output) for a template
+    whose initial mode is none (name without html extension); v = '<'."""
+    modes = [("true", True), ("false", False), ("'html'", True), ("'none'", False)]
+    def show(esc):
+        return "&lt;" if esc else "<"
+    out = []
+    for a, ea in modes:
+        for b, eb in modes:
+            out.append(("{%% autoescape %s %%}{%% autoescape %s %%}{{ v }}{%% endautoescape %%}{{ v }}{%% endautoescape %%}{{ v }}" % (a, b),
+                        show(eb) + show(ea) + show(False)))
+            for c, ec in modes:
+                out.append(("{%% autoescape %s %%}{%% autoescape %s %%}{%% autoescape %s %%}{{ v }}{%% endautoescape %%}{{ v }}{%% endautoescape %%}{{ v }}{%% endautoescape %%}{{ v }}" % (a, b, c),
+                            show(ec) + show(eb) + show(ea) + show(False)))
+            out.append(("{%% autoescape %s %%}{%% for i in l %%}{%% autoescape %s %%}{%% if c %%}{%% continue %%}{%% endif %%}{{ v }}{%% endautoescape %%}{{ v }}{%% endfor %%}{{ v }}{%% endautoescape %%}{{ v }}" % (a, b),
+                        None))
+            out.append(("{%% autoescape %s %%}{%% with q = 1 %%}{%% autoescape %s %%}{{ v }}{%% endautoescape %%}{%% endwith %%}{{ v }}{%% set z %%}{%% autoescape %s %%}{{ v }}{%% endautoescape %%}{{ v }}{%% endset %%}{{ z }}{%% endautoescape %%}{{ v }}" % (a, b, b),
+                        show(eb) + show(ea) + show(eb) + show(ea) + show(False)))
+    return out
+
+
 def fixture_templates():
     out = []
     for f in sorted(glob.glob(os.path.join(REPO, "minijinja/tests/inputs/*.txt")) + glob.glob(os.path.join(REPO, "minijinja/tests/inputs/*.html"))):
@@ -84,6 +106,8 @@ def main():
         chk.finish()
     # ---- templates ----
     templates = []
+    gen_asts = {}      # template index -> AST, for the state-restoration differential
+    expected = {}      # template index -> expected output (None: only the consistency oracle)
     if chk.replay:
         rp = json.load(open(chk.replay))
         templates.append(("replay", rp["replay"]["template"]))
@@ -100,10 +124,14 @@ def main():
                 templates.append(("nest3s%d" % j, all3[chk.rng.below(len(all3))]))
         nrand = 6000 if chk.thorough else 600
         for j in range(nrand):
-            g = proggen.Gen(chk.rng, {"autoescape": True, "recursive": False}, max_depth=3 + chk.rng.below(2))
+            g = proggen.Gen(chk.rng, {"autoescape": True, "recursive": False, "strings_with_meta": True}, max_depth=3 + chk.rng.below(2))
             ctx, kinds = proggen.default_context(chk.rng)
-            body = g.template(kinds)
-            templates.append(("gen%d" % j, proggen.body_src(body) + SENT))
+            body = g.template(kinds) + [("raw", SENT)]
+            gen_asts[len(templates)] = body
+            templates.append(("gen%d" % j, proggen.body_src(body)))
+        for k, (src, exp) in enumerate(escape_state_family()):
+            expected[len(templates)] = exp
+            templates.append(("escstate%d" % k, src + SENT))
         for name, src in fixture_templates():
             templates.append(("fixture:" + name, src))
     hist = collections.Counter()
@@ -145,9 +173,17 @@ def main():
     hist["streams"] = len(streams)
     hist["instructions"] = sum(len(ins) for _, _, ins in streams)
     # ---- dynamic: render, sentinel must arrive, no crash ----
-    ctxs = [{"l": [1, 2, 3], "c": True, "t": True, "n": 3, "m": 2, "s": "ab", "k": [1, 2]},
-            {"l": [1, 2, 3], "c": False, "t": True, "n": 0, "m": -2, "s": "", "k": []},
-            {"l": [], "c": True, "t": False, "n": 7, "m": 10, "s": "Q", "k": [1]}]
+    ctxs = [{"l": [1, 2, 3], "c": True, "t": True, "n": 3, "m": 2, "s": "a<b", "k": [1, 2], "v": "<"},
+            {"l": [1, 2, 3], "c": False, "t": True, "n": 0, "m": -2, "s": "", "k": [], "v": "<"},
+            {"l": [], "c": True, "t": False, "n": 7, "m": 10, "s": "Q'", "k": [1], "v": "<"}]
+    # what the reference interpreter (Lang/Interp.v, extracted for C03) renders for the generated programs:
+    # scope, capture and auto-escape state after every construct show in the rest of the output
+    ref = {}
+    if gen_asts and build_models("C03")[0]:
+        keys = [(ti, ci) for ti in sorted(gen_asts) for ci in range(len(ctxs))]
+        outs = run_model("C03", "c03", [langenc.request(gen_asts[ti], ctxs[ci])[0] for ti, ci in keys])
+        for k, o in zip(keys, outs):
+            ref[k] = o
     dyn_reqs, dyn_idx = [], []
     for ti, (name, src) in enumerate(templates):
         if name.startswith("fixture:"):
@@ -164,6 +200,14 @@ def main():
                 hist["render_ok"] += 1
                 if not rr["ok"].endswith(SENT):
                     dyn_bad.append((ti, ci, rel, "text after the construct did not reach the output", rr["ok"][-60:]))
+                elif expected.get(ti) is not None and rr["ok"] != expected[ti] + SENT:
+                    dyn_bad.append((ti, ci, rel, "auto-escape state not restored after a construct", "got %r expected %r" % (rr["ok"], expected[ti] + SENT)))
+                elif (ti, ci) in ref and ref[(ti, ci)][:1] == [0] and "".join(chr(c) for c in ref[(ti, ci)][2:]) != rr["ok"]:
+                    dyn_bad.append((ti, ci, rel, "output differs from the reference semantics (scope / capture / escape state after a construct)",
+                                    "got %r expected %r" % (rr["ok"][-120:], "".join(chr(c) for c in ref[(ti, ci)][2:])[-120:])))
+                    hist["ref_mismatch"] += 1
+                elif (ti, ci) in ref:
+                    hist["ref_agree"] += 1
             elif "err" in rr:
                 hist["render_err_%s" % ERR_NAMES.get(rr["err"], rr["err"])] += 1
             else:
